@@ -15,8 +15,17 @@ verus! {
 #[derive(Clone, Copy, PartialEq, Eq, Structural)]
 pub struct EndpointId { pub k: int }
 pub struct EndpointAddr { pub id: EndpointId }
-pub struct Connection { pub id: int }
 pub struct VarInt(pub u64);
+impl VarInt {
+    #[verifier::external_body] pub fn from_u32(x: u32) -> (r: VarInt) ensures r.0 == x { unimplemented!() }
+    #[verifier::external_body] pub fn into_inner(self) -> (r: u64) ensures r == self.0 { unimplemented!() }
+}
+// an established connection as built by conn_from_noq_conn (same field names as the real type)
+pub mod noq { use vstd::prelude::*; pub struct Connection { pub id: int } }
+pub struct PathStateReceiver { pub id: int }
+pub struct StaticInfo { pub endpoint_id: EndpointId, pub alpn: Vec<u8> }
+pub struct HandshakeCompletedData { pub info: StaticInfo, pub paths: PathStateReceiver }
+pub struct Connection { pub data: HandshakeCompletedData, pub inner: noq::Connection }
 //@item iroh/src/endpoint/hooks.rs enum BeforeConnectOutcome
 //@item iroh/src/endpoint/hooks.rs enum AfterHandshakeOutcome
 
@@ -77,6 +86,36 @@ impl EndpointHooksList {
 //@|     forall|i: int| 0 <= i < it.index@ ==> (#[trigger] self.inner@[i]).verdict_after(*conn) is Accept,
 //@end
 }
+
+// ======== conn_from_noq_conn: the only place an established `Connection` is built.  Its returned `async move` block is
+// extracted as a function over the variables it captures (rule R4b).
+pub enum ConnectingError { ConnectionError, HandshakeFailure, InternalConsistencyError, LocallyRejected }
+impl From<RemoteStateActorStoppedError> for ConnectingError { #[verifier::external_body] fn from(e: RemoteStateActorStoppedError) -> (r: ConnectingError) ensures r is InternalConsistencyError { unimplemented!() } }
+// the future returned by EndpointInner::register_connection
+#[verifier::external_body]
+pub struct RegisterFut { _p: () }
+#[verifier::external_body]
+pub async fn await_register(f: RegisterFut) -> (r: Result<PathStateReceiver, RemoteStateActorStoppedError>) { unimplemented!() }
+pub open spec fn all_accept_after(hooks: EndpointHooksList, conn: Connection) -> bool {
+    forall|i: int| 0 <= i < hooks.inner@.len() ==> (#[trigger] hooks.inner@[i]).verdict_after(conn) is Accept
+}
+impl Connection {
+    // closing a connection that a hook rejected must use that hook's own error code and reason
+    #[verifier::external_body]
+    pub fn close(&self, error_code: VarInt, reason: &[u8])
+        requires exists|h: Box<dyn DynEndpointHooks>| (#[trigger] h.verdict_after(*self)) matches AfterHandshakeOutcome::Reject { error_code: c, reason: rs } && c == error_code && rs@ == reason@   // [C42]
+    { unimplemented!() }
+}
+//@arm iroh/src/endpoint/connection.rs conn_from_noq_conn props=C42 name=conn_block block
+//@- Ok(async move
+//@| pub async fn conn_block(fut: RegisterFut, info: StaticInfo, conn: noq::Connection, inner: std::sync::Arc<EndpointInner>) -> (r: Result<Connection, ConnectingError>)
+//@|     ensures
+//@|         // an established connection comes out only if every after-handshake hook accepted THIS connection
+//@|         r matches Ok(c) ==> all_accept_after(inner.hooks, c) && c.inner == conn && c.data.info == info,
+//@rw R19 1
+//@- let paths = fut.await?;
+//@+ let paths = await_register(fut).await?;
+//@end
 
 // ======== Endpoint::connect_with_opts: connect preconditions
 // error enum of endpoint.rs without its foreign payloads
